@@ -55,6 +55,10 @@ void harness(void) {
     copy_shadow();
     switch (op) {
     case 0: /* chunk size */
+#ifdef CFIX
+      ASSUME(a == CFIX || a < 2);
+      if (a >= 2) a = CFIX;
+#endif
       ASSUME(a <= CMAX);
       asm_set_chunk_size(al, a);
       fit_c = a >= 2 ? a : 0;
@@ -73,6 +77,10 @@ void harness(void) {
       break; }
     case 3: { /* counting call: documented for instances without fitting */
       ASSUME(fit_c == 0);
+#ifdef CFIX
+      ASSUME(a == CFIX || a < 2);
+      if (a >= 2) a = CFIX;
+#endif
       ASSUME(a <= CMAX);
       long entry = asm_get_offset(al);
       int cnt = 0;
@@ -93,6 +101,10 @@ void harness(void) {
 #ifdef MODE_C15
   /* explicit settings, then the same final call on A (with history) and on a fresh B */
   unsigned long mv = IN(1), sw = IN(2), nb = IN(3), k = IN(4), setc = IN(5), cfinal = IN(6);
+#ifdef CFIX
+  ASSUME(cfinal == CFIX || cfinal < 2);
+  if (cfinal >= 2) cfinal = CFIX;
+#endif
   ASSUME(mv < 3 && sw < 2 && nb < 2 && k <= n && setc < 2 && cfinal <= CMAX);
   asm_mov_imm(al, (enum asm_opt)mv); asm_sib_index_base_swap(al, (enum asm_opt)sw); asm_sib_no_base(al, (enum asm_opt)nb);
   if (setc) { asm_set_chunk_size(al, cfinal); fit_c = cfinal >= 2 ? cfinal : 0; }
